@@ -7,10 +7,7 @@ import sys
 
 sys.path.insert(0, os.path.join(os.path.dirname(os.path.abspath(__file__)), ".."))
 
-NOT_APPLICABLE = {
-    "C15": "quadrature accuracy over a parameter space, monotonicity and range of a numerically integrated value: "
-           "nothing about it is visible in the shape of the code; no sound static argument in reach (DESIGN.md §5)",
-}
+NOT_APPLICABLE = {}
 PENDING_REASON = "static rules for this property are designed (DESIGN.md §3) but not built yet; not claimed until they are"
 
 BASELINE = "cd /repo && /venv/bin/python -m pytest -ra -q -p no:cacheprovider --timeout=900 --continue-on-collection-errors"
